@@ -366,6 +366,13 @@ def fam_auto(case):
                 for sw in (0.75 * w_eff[0], 2.5 * w_eff[0]):
                     flux_call(r, make_flux(tc, float(sw)), tc, np.full(k, sw), c, w_eff, gw_arg, S[ig],
                               E['distinct'], tag, 'auto-scalar', '')
+                    if np.all(tc == np.round(tc)):
+                        # whole-number centres handed over as an integer array (np.arange), fractional scalar width
+                        from taurex.binning import FluxBinner
+                        flux_call(r, FluxBinner(tc.astype(np.int64), float(sw)), tc, np.full(k, sw), c, w_eff, gw_arg,
+                                  S[ig], E['distinct'], tag, 'auto-scalar-intgrid', '')
+                        flux_call(r, FluxBinner(tc.astype(np.int64)), tc, ref.midpoint_widths(tc), c, w_eff, gw_arg,
+                                  S[ig], None, tag, 'auto-none-intgrid', '')
     return r
 
 
